@@ -49,8 +49,12 @@ def run_case(c):
     return None
 
 
+def _params(ps):
+    return [bytes.fromhex(p["hex"]) if isinstance(p, dict) and "hex" in p else p for p in ps]
+
+
 def _exec(con, st):
-    cur = con.execute(st["s"], st["params"]) if st.get("params") is not None else con.execute(st["s"])
+    cur = con.execute(st["s"], _params(st["params"])) if st.get("params") is not None else con.execute(st["s"])
     rows = [[_norm(v) for v in row] for row in cur.fetchall()]
     con.commit()
     return rows
